@@ -49,15 +49,17 @@ Theorem check_inference_sound :
 Proof. exact check_inference_sound_lemma. Qed.
 
 (* the entry built for an Ethos-U custom operator demands its inputs, and tags its outputs only when every byte of
-   every output lies inside a write footprint of an operation of its command stream *)
+   every output lies inside a write footprint of an operation of its command stream - or the output occupies exactly
+   the bytes of one of the operator's own (demanded) inputs *)
 Theorem npu_top_op_spec :
   forall hw evs b1 b2 k ins outs rs ws,
     npu_top_op hw evs b1 b2 k ins outs = Some (rs, ws) ->
     rs = ins /\ ws = clobbers k (arena_ivs b1 b2 (stream_writes hw evs)) ++ outs /\
     forall rg lo hi t, In (rg, lo, hi, t) outs ->
       rg = ARENA /\
-      forall a, lo <= a < hi ->
-        exists s iv, In s (stream_writes hw evs) /\ In iv (arena_iv b1 b2 s) /\ fst iv <= a < snd iv.
+      ((forall a, lo <= a < hi ->
+         exists s iv, In s (stream_writes hw evs) /\ In iv (arena_iv b1 b2 s) /\ fst iv <= a < snd iv) \/
+       (exists t', In (rg, lo, hi, t') ins)).
 Proof. exact npu_top_op_spec_lemma. Qed.
 
 (* every arena byte the stream of an Ethos-U operator writes carries afterwards that operator's scratch identity or
